@@ -130,22 +130,34 @@ Proof.
 Qed.
 
 (* ---------------------------------------------------------------- gc *)
-Lemma gc_go_sub : forall thr ta (es : list (key * (list A * Z))) x, In x (snd (gc_go thr ta es)) -> In x es.
+Lemma drop_stamps_In : forall k ta (x : key * Z), In x (drop_stamps k ta) <-> In x ta /\ fst x <> k.
 Proof.
-  induction ta as [|[k t] ta IH]; simpl; intros es x H; auto.
+  intros; unfold drop_stamps. rewrite filter_In, negb_true_iff, key_eqb_neq. intuition congruence.
+Qed.
+Lemma drop_stamps_length : forall k ta, (length (drop_stamps k ta) <= length ta)%nat.
+Proof.
+  intros k ta; unfold drop_stamps. induction ta as [|a ta IH]; simpl; auto.
+  destruct (negb (key_eqb k (fst a))); simpl; lia.
+Qed.
+
+Lemma gc_go_sub : forall fuel thr ta (es : list (key * (list A * Z))) x, In x (snd (gc_go fuel thr ta es)) -> In x es.
+Proof.
+  induction fuel as [|fuel IH]; intros thr ta es x H; simpl in *; auto.
+  destruct ta as [|[k t] ta]; simpl in *; auto.
   destruct (t >? thr); simpl in *; auto. apply IH in H. apply dict_del_In in H; tauto.
 Qed.
-Lemma gc_go_times_sub : forall thr ta (es : list (key * (list A * Z))) x, In x (fst (gc_go thr ta es)) -> In x ta.
+Lemma gc_go_times_sub : forall fuel thr ta (es : list (key * (list A * Z))) x, In x (fst (gc_go fuel thr ta es)) -> In x ta.
 Proof.
-  induction ta as [|[k t] ta IH]; simpl; intros es x H; auto.
-  destruct (t >? thr); simpl in *; auto. right; eapply IH; eauto.
+  induction fuel as [|fuel IH]; intros thr ta es x H; simpl in *; auto.
+  destruct ta as [|[k t] ta]; simpl in *; auto.
+  destruct (t >? thr); simpl in *; auto. apply IH in H. apply drop_stamps_In in H. tauto.
 Qed.
 
 Lemma m_gc_sub : forall now m e, In e (m_entries (m_gc now m)) -> In e (m_entries m).
 Proof.
   intros now m e; unfold m_gc. destruct (m_timeout m) as [to|]; auto.
-  destruct (gc_go (now - to) (m_times m) (m_entries m)) as [ta es] eqn:E; simpl.
-  intros H. apply (gc_go_sub (now - to) (m_times m)). rewrite E; auto.
+  destruct (gc_go (length (m_times m)) (now - to) (m_times m) (m_entries m)) as [ta es] eqn:E; simpl.
+  intros H. apply (gc_go_sub (length (m_times m)) (now - to) (m_times m)). rewrite E; auto.
 Qed.
 Lemma m_gc_timeout : forall now m, m_timeout (m_gc now m) = m_timeout m.
 Proof.
